@@ -370,6 +370,8 @@ class WorkflowDatabaseManager:
             self.KEY_RUN_MODE,
             schd.get_run_mode().value,
         )
+        # (The table has just been wiped: keep the hold point set by command.)
+        self.put_workflow_hold_cycle_point(schd.pool.hold_point)
 
     def put_workflow_params_1(
         self, key: str, value: Union[AnyStr, float, None]
